@@ -384,7 +384,6 @@ func errPropagation(r *Report, s *S1, ruleName string) {
 	r.FloorMin("error-returning call sites in goag and cmd/goag", nForks, 20)
 }
 
-
 func condTestsErrG(info *types.Info, e ast.Expr, errObj types.Object) bool {
 	c := &c19{info: info}
 	return c.condTestsErr(e, errObj)
